@@ -15,6 +15,16 @@ CHECKS = {
     note="Trusted: TLC, zipfile, lxml, the projection (zip read with zipfile+lxml only; loaded package via iter_parts/rels). "
          "XML equivalence = prefix-independent canonical form modulo whitespace-only text between elements. Bounded by config constants.",
     technique="TLA+ state machine explored by TLC; TLC-generated packages replayed into the real library; observed traces validated by TLC"),
+ "C14": dict(
+    category="model_checking", design_ref="DESIGN.md §4 C14",
+    text="Table.tla has a property layer (regions read off the public readers, text tokens, frame = sum) and an Impl layer (the four "
+         "span attributes as _Cell.merge/split write them). MC_Table checks Impl refines the property layer over every history up to the "
+         "depth bound on every table shape and text pattern, and emits one path per distinct state; the driver replays each path on a real "
+         "table and applies every merge (all ordered corner pairs), split and cross-table merge to a copy of the state reached, so every "
+         "history one step deeper is executed; TLC validates Inv and Post on every observed step. Creation sweep over (r,c,w,h); "
+         "12x12 simulation to depth 10.",
+    note="Trusted: TLC; projection reads the lxml tree directly plus public readers. Quick: <=3x3 depth 3 histories, 4x4 depth 2; thorough: <=4x4 depth 3.",
+    technique="TLA+ two-layer state machine, TLC exhaustive refinement check, transition-complete replay, TLC trace validation"),
  "C16": dict(
     category="fault_enumeration", design_ref="DESIGN.md §4 C16",
     text="Same spec as C01 plus fault actions (dangling targets, missing content types/stream/package rels, non-zip, truncated, missing "
